@@ -97,33 +97,37 @@ MUST_REACH = [
     'debian.deb822:RestrictedWrapper.dump',
 ]
 
-DOCS = {'quick': 6000, 'thorough': 420000}
-CODEC = {'quick': 120000, 'thorough': 8400000}
-LICENSES = {'quick': 20000, 'thorough': 1400000}
+DOCS = {'quick': 10000, 'thorough': 560000}
+CODEC = {'quick': 200000, 'thorough': 11200000}
+LICENSES = {'quick': 30000, 'thorough': 1400000}
 CODEC_BATCH = 250
 LICENSE_BATCH = 100
 
+# minimum-reach floors, ~50% of what a run on the current tree measures (quick: seed 0 measured; thorough: scaled
+# by the workload ratio and checked against a measured thorough run)
 FLOORS = {
-    'quick': {'nontrivial': 40000,
-              'monitors': {'M.doc': 3000, 'M.para': 9000, 'M.codec': 60000, 'M.license': 10000, 'K.codec': 30000},
-              'counters': {'feat:empty-line': 1500, 'feat:indent': 1500, 'feat:tab': 500, 'feat:non-ascii': 1500,
-                           'feat:trailing-blank': 1500, 'feat:files-list>80': 300, 'feat:files-list>120': 150,
-                           'feat:pattern>80': 150, 'feat:pattern-hyphen': 1000, 'feat:contact-single': 300,
-                           'feat:contact-multi': 300, 'feat:files-paragraph': 3000, 'feat:license-paragraph': 2000,
-                           'feat:header-license': 500, 'feat:set-then-clear': 100, 'feat:reassigned': 500,
-                           'input:keepends': 500, 'input:noends': 500, 'input:stringio': 500, 'input:bytes': 500,
+    'quick': {'nontrivial': 45000,
+              'monitors': {'M.doc': 5000, 'M.para': 20000, 'M.value': 90000, 'M.codec': 65000, 'M.codec-str': 49000,
+                           'M.license': 15000, 'K.codec': 145000},
+              'counters': {'feat:empty-line': 4400, 'feat:indent': 4500, 'feat:tab': 3800, 'feat:non-ascii': 4800,
+                           'feat:trailing-blank': 4500, 'feat:files-list>80': 2900, 'feat:files-list>120': 1700,
+                           'feat:pattern>80': 1500, 'feat:pattern-hyphen': 3800, 'feat:files-single': 1700,
+                           'feat:files-multi': 3800, 'feat:contact-single': 950, 'feat:contact-multi': 1400,
+                           'feat:files-paragraph': 4200, 'feat:license-paragraph': 3300, 'feat:header-license': 990,
+                           'feat:set-then-clear': 1200, 'feat:reassigned': 3700, 'feat:files-added-after-license': 2100,
+                           'input:keepends': 1200, 'input:noends': 1200, 'input:stringio': 1200, 'input:bytes': 1200,
                            'codec:enumerated': 16105}},
     'thorough': {'nontrivial': 2000000,
-                 'monitors': {'M.doc': 200000, 'M.para': 600000, 'M.codec': 4000000, 'M.license': 700000,
-                              'K.codec': 2000000},
-                 'counters': {'feat:empty-line': 100000, 'feat:indent': 100000, 'feat:tab': 35000,
-                              'feat:non-ascii': 100000, 'feat:trailing-blank': 100000, 'feat:files-list>80': 20000,
-                              'feat:files-list>120': 10000, 'feat:pattern>80': 10000, 'feat:pattern-hyphen': 70000,
-                              'feat:contact-single': 20000, 'feat:contact-multi': 20000,
-                              'feat:files-paragraph': 200000, 'feat:license-paragraph': 140000,
-                              'feat:header-license': 35000, 'feat:set-then-clear': 7000, 'feat:reassigned': 35000,
-                              'input:keepends': 35000, 'input:noends': 35000, 'input:stringio': 35000,
-                              'input:bytes': 35000, 'codec:enumerated': 16105}},
+                 'monitors': {'M.doc': 280000, 'M.para': 1100000, 'M.value': 5000000, 'M.codec': 3500000, 'M.codec-str': 2600000,
+                              'M.license': 700000, 'K.codec': 6000000},
+                 'counters': {'feat:empty-line': 198000, 'feat:indent': 202500, 'feat:tab': 171000, 'feat:non-ascii': 216000,
+                              'feat:trailing-blank': 202500, 'feat:files-list>80': 130500, 'feat:files-list>120': 76500,
+                              'feat:pattern>80': 67500, 'feat:pattern-hyphen': 171000, 'feat:files-single': 76500,
+                              'feat:files-multi': 171000, 'feat:contact-single': 42750, 'feat:contact-multi': 63000,
+                              'feat:files-paragraph': 189000, 'feat:license-paragraph': 148500, 'feat:header-license': 44550,
+                              'feat:set-then-clear': 54000, 'feat:reassigned': 166500, 'feat:files-added-after-license': 94500,
+                              'input:keepends': 54000, 'input:noends': 54000, 'input:stringio': 54000, 'input:bytes': 54000,
+                              'codec:enumerated': 16105}},
 }
 
 # ---------------------------------------------------------------------------
@@ -1091,8 +1095,8 @@ LEVEL_TEXT = ('Runtime monitoring: seeded specs of copyright documents (header f
               'field-like/comment-like/dot lines; pattern lists beyond 80/120 columns, single patterns beyond 80 '
               'characters, hyphenated patterns) are built through the public API of the live tree, dumped, parsed back '
               'in strict mode from four input forms, and every value of every re-parsed paragraph is compared with the '
-              'value the generator wrote (6000 documents quick / 420000 thorough); the re-dump must be identical.  The '
-              'multiline codec and License.to_str/from_str are driven with 1.2e5 / 8.4e6 random line lists plus all '
+              'value the generator wrote (10000 documents quick / 560000 thorough); the re-dump must be identical.  The '
+              'multiline codec and License.to_str/from_str are driven with 2e5 / 1.12e7 random line lists plus all '
               '16105 lists of length <= 4 over an 11-line alphabet, judged only inside the stated precondition.  '
               'Held-on-observed, not a proof: reach is the generated documents and lists.')
 LEVEL_NOTE = ('Trusted: CPython, the spec generator and its own Deb822 value encoder for raw fields, the domain '
